@@ -159,7 +159,10 @@ def cases(ctx: Ctx):
     js_ok = payload_json(1, 0)
     # (names and keys outside ASCII too: a key that differs from the right one only in characters some normalisation drops or
     # folds -- an accent, an invisible separator, a full-width twin -- is a wrong key)
-    for urn in ('b', 'c', 'a', 'zz', 'B', 'b\t', '', 'bk', 'bkx', 'z\u00fc', 'zu', 'z', 'b\u00fc'):
+    # (and names / keys that a format string, a template or a regular expression would read as syntax: whatever text an
+    # unauthenticated sender puts there ends up in rejection messages and log lines)
+    for urn in ('b', 'c', 'a', 'zz', 'B', 'b\t', '', 'bk', 'bkx', 'z\u00fc', 'zu', 'z', 'b\u00fc',
+                'urn:{edge}', 'e{7}', 'x}', '{0}', '%s', '%(x)s', 'b{', '$b', 'b\\1', '(b', 'b*'):
         for key in ('kb', 'kc', 'ka', 'kx', 'KB', 'kb\x00', '', 'x', 'k', 'b', 'kbkb', 'kbx',
                     'k\u00df\u20ac', 'k\u00df', 'kss\u20ac', 'kb\u00e9', '\u2063kb', '\uff4b\uff42', 'k\u0062\u0301'):
             for ty, fl in ((0, 1), (1, 1), (2, 0)):
